@@ -82,6 +82,11 @@ func RunOps(c *Ctx, f OpFilter) *engine.OpEngine {
 }
 
 func fileOps(c *Ctx, e *engine.OpEngine, f OpFilter) {
+	if e.ConcreteFallbacks > 0 {
+		c.R.Count("op.instances_decided_on_concrete_sizes", e.ConcreteFallbacks)
+		c.R.NotDecide(fmt.Sprintf("%d instance(s) touch element data outside the recognised data layer and were decided on concrete sizes (2 or 3 per dimension) instead of symbolic ones", e.ConcreteFallbacks))
+		e.ConcreteFallbacks = 0
+	}
 	bad := map[string]bool{}
 	for _, fd := range e.Findings {
 		keep := f.Keep == nil || f.Keep(fd.Rule, fd.Construct)
